@@ -106,7 +106,7 @@ Ty == KTypes[vec.k]
 TheoremHolds == vec.st = 2 => Theorem(F, Attrs(vec.k), Ty, vec.t)
 Emit == vec.st = 2 => PrintT(ToJson([tag |-> "V", f |-> vec.f, k |-> vec.k, types |-> Ty,
                        t |-> [i \in 1..Len(vec.t) |-> EncV(vec.t[i])],
-                       rep |-> Representable(F, Ty, vec.t),
+                       rep |-> Representable(F, Ty, vec.t), gap |-> KnownGap(F, Ty, vec.t),
                        fields |-> IF F.kind = "text" /\ ~F.rfc /\ Has(F.delim, ",")
                                   THEN [i \in 1..Len(Ty) |-> Codes(WriteField(F, Ty[i], vec.t[i]))] ELSE <<>>,
                        rt |-> RoundTrips(F, Attrs(vec.k), Ty, vec.t),
